@@ -55,18 +55,22 @@ func properties() []Property {
 			Harnesses: []Harness{
 				{Name: "H10a-int", Pkg: "yang", Fn: "H10a", Quick: map[string]int{"k": 2, "p": 2, "mm": 1, "fdlo": 0, "fdhi": 0},
 					Thorough:  map[string]int{"k": 3, "p": 2, "mm": 1, "fdlo": 0, "fdhi": 0},
-					Redirects: h10Redirects, Summaries: []string{numberLess}, Reach: []string{"accepted", "rejected"}, MaxSteps: 50000000, TimeoutMs: 60000,
+					Redirects: h10Redirects, Summaries: []string{numberLess}, Reach: []string{"accepted", "rejected"}, MaxSteps: 50000000, TimeoutMs: 30000,
 					Bound:     "integer ranges and lengths: every restriction skeleton of k parts (each a single value or a pair; every endpoint a number, min or max) x every valid parent set of p parts; all endpoints arbitrary 64-bit magnitudes with sign; one universally quantified member x",
 					Outside:   "more than k written parts or p parent parts; the textual number syntax (decided by C15: the number parsers are stubbed by arbitrary Numbers here)"},
-				{Name: "H10a-dec-lo", Pkg: "yang", Fn: "H10a", Quick: map[string]int{"k": 2, "p": 1, "mm": 1, "fdlo": 1, "fdhi": 2},
-					Thorough:  map[string]int{"k": 2, "p": 2, "mm": 1, "fdlo": 1, "fdhi": 9},
-					Redirects: h10Redirects, Summaries: []string{numberLess}, Reach: []string{"accepted", "rejected"}, MaxSteps: 50000000, TimeoutMs: 60000,
-					Bound:     "decimal64 ranges at fraction-digits fdlo..fdhi: every skeleton of k parts x every valid parent of p parts; endpoints arbitrary signed 64-bit mantissas",
+				{Name: "H10a-dec-k1", Pkg: "yang", Fn: "H10a", Quick: map[string]int{"k": 1, "p": 2, "mm": 1, "fdlo": 1, "fdhi": 18},
+					Redirects: h10Redirects, Summaries: []string{numberLess}, Reach: []string{"accepted", "rejected"}, MaxSteps: 50000000, TimeoutMs: 30000,
+					Bound:     "decimal64 ranges at every fraction-digits 1..18: every one-part restriction (single value or pair; endpoints number/min/max) x every valid parent of 2 parts; endpoints arbitrary signed 64-bit mantissas",
 					Outside:   "as H10a-int"},
-				{Name: "H10a-dec-hi", Pkg: "yang", Fn: "H10a", Quick: map[string]int{"k": 2, "p": 1, "mm": 1, "fdlo": 17, "fdhi": 18},
-					Thorough:  map[string]int{"k": 2, "p": 2, "mm": 1, "fdlo": 10, "fdhi": 18},
-					Redirects: h10Redirects, Summaries: []string{numberLess}, Reach: []string{"accepted", "rejected"}, MaxSteps: 50000000, TimeoutMs: 60000,
-					Bound:     "decimal64 ranges at fraction-digits fdlo..fdhi: every skeleton of k parts x every valid parent of p parts; endpoints arbitrary signed 64-bit mantissas",
+				{Name: "H10a-dec-k2", Pkg: "yang", Fn: "H10a", Quick: map[string]int{"k": 2, "p": 1, "mm": 0, "fdlo": 2, "fdhi": 2},
+					Thorough:  map[string]int{"k": 2, "p": 1, "mm": 1, "fdlo": 1, "fdhi": 2},
+					Redirects: h10Redirects, Summaries: []string{numberLess}, Reach: []string{"accepted", "rejected"}, MaxSteps: 50000000, TimeoutMs: 30000,
+					Bound:     "decimal64 ranges at fraction-digits fdlo..fdhi: every two-part skeleton x every valid one-part parent (sorting, coalescing, overlap detection on decimals)",
+					Outside:   "as H10a-int"},
+				{Name: "H10a-dec-k2hi", Pkg: "yang", Fn: "H10a", Quick: map[string]int{"k": 2, "p": 1, "mm": 0, "fdlo": 18, "fdhi": 18},
+					Thorough:  map[string]int{"k": 2, "p": 1, "mm": 1, "fdlo": 17, "fdhi": 18},
+					Redirects: h10Redirects, Summaries: []string{numberLess}, Reach: []string{"accepted", "rejected"}, MaxSteps: 50000000, TimeoutMs: 30000,
+					Bound:     "as H10a-dec-k2 at the highest precisions",
 					Outside:   "as H10a-int"},
 			},
 			Assumptions: []string{"ParseInt/ParseDecimal are redirected (inside the C10 harness only) to a stub returning an arbitrary Number: the stub's contract 'returns the number the token denotes' is what C15 decides for the real parsers; native replay uses the real parsers on printed model values",
